@@ -25,6 +25,9 @@ def run(ctx):
     if gen.violated:
         raise core.ToolFailure("C12 invariant %s is violated in the model itself (Gen)" % gen.violated)
     rep = ctx.read_harness_report(ctx.harness("replay_symcache", ["replay", gen.out_path], out_name="replay_symcache.out", timeout=3000))
+    # the same behaviours with the keys mapped to three libraries that share a leaf name and have no identifiers
+    rep_dirs = ctx.read_harness_report(ctx.harness("replay_symcache", ["replay", gen.out_path], out_name="replay_symcache_dirs.out", timeout=3000, env={"VERIF_IDMAP": "dirs"}))
+    rep["evaluations"] += rep_dirs["evaluations"]
     nruns = 600 if tier == "quick" else 6000
     tr = ctx.harness("replay_symcache", ["v", gen.out_path, nruns], out_name="symcache_v.ndjson", timeout=3000)
     tv = ctx.trace_validate("Trace_SymbolCache", "Trace_SymbolCache", tr)
@@ -46,7 +49,8 @@ def run(ctx):
         "evaluations": rep["evaluations"] + tv["total"], "distinct_nontrivial": rep["distinct_nontrivial"],
         "rule": "MC: all interleavings of poll/open steps incl. spurious polls for the configured scripts (3 tasks, 1-3 lookups, 1-3 keys differing in one "
                 "identity component each, answers Ok/NotFound/ParseErr/LoadErr, 0-3 suspensions), history hidden by VIEW; Gen: every complete behaviour "
-                "of <= MaxSteps steps replayed poll-exactly (non-trivial = distinct behaviour); V: seeded strict-executor and tokio runs",
+                "of <= MaxSteps steps replayed poll-exactly under two identity mappings of the keys (one differing identifier; same leaf name in different directories "
+                "without identifiers) (non-trivial = distinct behaviour); V: seeded strict-executor and tokio runs",
         "tlc": {"MC": mc.as_dict(), "Gen": gen.as_dict(), "mutant_violates": mut.violated, "Trace": {k: v for k, v in tv.items() if k != "out"}},
         "replay_classes": rep["classes"], "runs_under_free_executors": tv["total"],
     }
